@@ -30,6 +30,7 @@ fn main() {
         "keys" => h::eng_keys::main(rest),
         "capi" => h::eng_capi::main(rest),
         "mem" => h::eng_mem::main(rest),
+        "compfs" => h::eng_compfs::main(rest),
         e => {
             eprintln!("unknown engine {e}");
             std::process::exit(2);
